@@ -229,6 +229,10 @@ func c03header(number uint64, extra []byte) *types.Header {
 	return &types.Header{Number: new(big.Int).SetUint64(number), Difficulty: big.NewInt(1), Extra: extra}
 }
 
+func c03headerD(number uint64, diff []byte, extra []byte) *types.Header {
+	return &types.Header{Number: new(big.Int).SetUint64(number), Difficulty: new(big.Int).SetBytes(diff), Extra: extra}
+}
+
 // ---------------------------------------------------------------- one case
 type c03case struct {
 	src                 string
@@ -293,6 +297,9 @@ func c03exec(c *Ctx, k c03case) {
 		switch {
 		case strings.HasPrefix(k.hdr, "syn:"):
 			err = v.ValidateHeaderAndProof(c03header(k.number, unhx(k.hdr[4:])), k.proof)
+		case strings.HasPrefix(k.hdr, "synd:"):
+			f := strings.SplitN(k.hdr[5:], ":", 2)
+			err = v.ValidateHeaderAndProof(c03headerD(k.number, unhx(f[0]), unhx(f[1])), k.proof)
 		case strings.HasPrefix(k.hdr, "rlp:"):
 			err = v.ValidateHeaderWithProof(&thistory.BlockHeaderWithProof{Header: unhx(k.hdr[4:]), Proof: k.proof})
 		case strings.HasPrefix(k.hdr, "era:"):
@@ -340,9 +347,211 @@ func c03replay(c *Ctx, lines []string) {
 			c03embedded(c)
 			continue
 		}
+		if len(f) >= 4 && f[0] == "prover" {
+			c03prover(c, c03parseChain(f[2]), c03parseIdx(f[3]), false)
+			continue
+		}
+		if len(f) >= 4 && f[0] == "bhwp" {
+			c03bhwp(c, c03parseChain(f[2]), c03parseIdx(f[3])[0])
+			continue
+		}
 		if k, ok := c03parse(f); ok {
 			c03exec(c, k)
 		}
+	}
+}
+
+// ---------------------------------------------------------------- the prover: history.Accumulator + history.BuildProof
+//
+//	prover <consts> <chain> <i1,i2,..> | ok <epoch roots> <proof_i1,proof_i2,..>  /  err
+//	bhwp   <consts> <chain> <i>        | ok <header rlp> <proof>  /  err <class>          (history.BuildHeaderWithProof)
+//
+//	chain = hash:difficultyhex:extrahex per header, comma separated; header j is types.Header{Number: j, Difficulty, Extra}
+//	The master accumulator is built by the REAL NewAccumulator/Update/Finish, the records handed to BuildProof are the ones
+//	the accumulator held for that epoch (hook VerifCurrentEpochRecords, taken when the epoch is full resp. after Finish),
+//	and every built proof is then validated by the REAL HeaderValidator over the roots the builder produced (validate lines,
+//	truth honest-partial-epoch / honest-full-epoch).
+type c03hdr struct {
+	diff, extra []byte
+}
+
+func c03chainField(ch []c03hdr) string {
+	p := make([]string, len(ch))
+	for j, h := range ch {
+		p[j] = hx(c03headerD(uint64(j), h.diff, h.extra).Hash().Bytes()) + ":" + hx(h.diff) + ":" + hx(h.extra)
+	}
+	if len(p) == 0 {
+		return "."
+	}
+	return strings.Join(p, ",")
+}
+func c03parseChain(s string) []c03hdr {
+	if s == "." {
+		return nil
+	}
+	var ch []c03hdr
+	for _, e := range strings.Split(s, ",") {
+		f := strings.Split(e, ":")
+		ch = append(ch, c03hdr{diff: unhx(f[1]), extra: unhx(f[2])})
+	}
+	return ch
+}
+func c03parseIdx(s string) []int {
+	var out []int
+	for _, e := range strings.Split(s, ",") {
+		v, _ := strconv.Atoi(e)
+		out = append(out, v)
+	}
+	return out
+}
+
+// c03buildChain feeds the chain to the real accumulator; returns the epoch roots and, per epoch, the records it held
+func c03buildChain(ch []c03hdr) (roots [][]byte, epochRecords [][][]byte, err error) {
+	acc := history.NewAccumulator()
+	for j, h := range ch {
+		if j > 0 && j%8192 == 0 {
+			epochRecords = append(epochRecords, acc.VerifCurrentEpochRecords())
+		}
+		if err = acc.Update(*c03headerD(uint64(j), h.diff, h.extra)); err != nil {
+			return
+		}
+	}
+	master, err := acc.Finish()
+	if err != nil {
+		return
+	}
+	epochRecords = append(epochRecords, acc.VerifCurrentEpochRecords())
+	return master.HistoricalEpochs, epochRecords, nil
+}
+
+func c03prover(c *Ctx, ch []c03hdr, idx []int, alsoValidate bool) {
+	is := make([]string, len(idx))
+	for j, i := range idx {
+		is[j] = strconv.Itoa(i)
+	}
+	head := fmt.Sprintf("prover %s %s %s", c03constField(), c03chainField(ch), strings.Join(is, ","))
+	var roots [][]byte
+	var proofs [][]byte
+	var err error
+	p, msg := guard(func() {
+		var recs [][][]byte
+		roots, recs, err = c03buildChain(ch)
+		if err != nil {
+			return
+		}
+		for _, i := range idx {
+			h := c03headerD(uint64(i), ch[i].diff, ch[i].extra)
+			var pr history.AccumulatorProof
+			pr, err = history.BuildProof(*h, history.EpochAccumulator{HeaderRecords: recs[i/8192]})
+			if err != nil {
+				return
+			}
+			proofs = append(proofs, c03cat(pr))
+		}
+	})
+	c.Count("prover_chain")
+	switch {
+	case p:
+		c.Emit("%s | panic %s", head, msg)
+		return
+	case err != nil:
+		c.Emit("%s | err 99", head)
+		return
+	}
+	c.Emit("%s | ok %s %s", head, hxl(roots), hxl(proofs))
+	if !alsoValidate {
+		return
+	}
+	// the verifier over the roots the builder produced
+	ep := newSparse(uint64(len(roots)))
+	for j, r := range roots {
+		ep.ent[uint64(j)] = r
+	}
+	for j, i := range idx {
+		truth := "honest-partial-epoch"
+		if (i/8192+1)*8192 <= len(ch) {
+			truth = "honest-full-epoch"
+		}
+		h := c03headerD(uint64(i), ch[i].diff, ch[i].extra)
+		c03exec(c, c03case{src: "custom", hdr: "synd:" + hx(ch[i].diff) + ":" + hx(ch[i].extra), number: uint64(i), hash: h.Hash().Bytes(),
+			proof: proofs[j], epochs: ep, roots: newSparse(0), sums: newSparse(0), oracle: "nil", truth: truth})
+	}
+}
+
+// history.BuildHeaderWithProof, and its output through ValidateHeaderWithProof
+func c03bhwp(c *Ctx, ch []c03hdr, i int) {
+	head := fmt.Sprintf("bhwp %s %s %d", c03constField(), c03chainField(ch), i)
+	var hwp *history.BlockHeaderWithProof
+	var roots [][]byte
+	var err error
+	p, msg := guard(func() {
+		var recs [][][]byte
+		roots, recs, err = c03buildChain(ch)
+		if err != nil {
+			return
+		}
+		hwp, err = history.BuildHeaderWithProof(*c03headerD(uint64(i), ch[i].diff, ch[i].extra), history.EpochAccumulator{HeaderRecords: recs[i/8192]})
+	})
+	c.Count("bhwp")
+	switch {
+	case p:
+		c.Emit("%s | panic %s", head, msg)
+	case err != nil:
+		c.Emit("%s | err %s", head, strings.ReplaceAll(err.Error(), " ", "_"))
+	default:
+		c.Emit("%s | ok %s %s", head, hx(hwp.Header), hx(hwp.Proof))
+		ep := newSparse(uint64(len(roots)))
+		for j, r := range roots {
+			ep.ent[uint64(j)] = r
+		}
+		h := c03headerD(uint64(i), ch[i].diff, ch[i].extra)
+		c03exec(c, c03case{src: "custom", hdr: "rlp:" + hx(hwp.Header), number: uint64(i), hash: h.Hash().Bytes(), proof: hwp.Proof,
+			epochs: ep, roots: newSparse(0), sums: newSparse(0), oracle: "nil", truth: "honest-header-with-proof"})
+	}
+}
+
+func (g c03gen) chain(n int) []c03hdr {
+	ch := make([]c03hdr, n)
+	for j := range ch {
+		var d []byte
+		switch g.r.Intn(4) {
+		case 0:
+			d = []byte{byte(1 + g.r.Intn(255))}
+		case 1:
+			d = g.r.Bytes(1 + g.r.Intn(25)) // up to 200 bits: the per-epoch sum stays below 2^256
+		default:
+			d = g.r.Bytes(1 + g.r.Intn(8))
+		}
+		if d[0] == 0 {
+			d[0] = 1
+		}
+		ch[j] = c03hdr{diff: d, extra: g.r.Bytes(1 + g.r.Intn(6))}
+	}
+	return ch
+}
+
+// chains with a partial last epoch (and, in thorough, full epochs before it)
+func (g c03gen) prover(lengths []int) {
+	for _, n := range lengths {
+		ch := g.chain(n)
+		set := map[int]bool{0: true, n - 1: true}
+		if g.c.Tier == "thorough" {
+			set[g.r.Intn(n)] = true
+		}
+		if n > 8192 {
+			set[8191] = true
+			set[8192] = true
+		}
+		var idx []int
+		for i := range set {
+			idx = append(idx, i)
+		}
+		sort.Ints(idx)
+		if n > 4000 {
+			idx = []int{n - 1} // every proof costs the model a pass over the epoch (about a minute for a full one)
+		}
+		g.c.Count(fmt.Sprintf("prover_chain_len_%d", n))
+		c03prover(g.c, ch, idx, true)
 	}
 }
 
@@ -915,5 +1124,11 @@ func runC03(c *Ctx) {
 		g.sweep(g.postMerge(g.randNumber(3), 3, c03slot(3, 642, g.r.U64()%8192), 643, "nil", "honest"), st)
 	}
 	g.fullEpoch(nEpochs)
+	if thorough {
+		g.prover([]int{1, 2, 3, 5, 100, 257, 1000, 8191, 8197})
+	} else {
+		g.prover([]int{1, 3, 20})
+	}
+	c03bhwp(c, g.chain(3), 1)
 	g.random(nRandom)
 }
